@@ -70,6 +70,19 @@ def _is_local_name(name, node=None):
     return name not in LITERAL_NAMES and not name[:1].isupper()
 
 
+_COMMUTATIVE = (ast.Add, ast.Mult, ast.BitOr, ast.BitAnd, ast.BitXor)
+# `a < b` is `b > a`, `a == b` is `b == a` (for the DSL's expression objects
+# too: Python falls back to the reflected method, which the DSL defines as
+# the mirrored comparison)
+_FLIP = {ast.Lt: ast.Gt, ast.Gt: ast.Lt, ast.LtE: ast.GtE, ast.GtE: ast.LtE,
+         ast.Eq: ast.Eq, ast.NotEq: ast.NotEq}
+
+
+def _is_int_const(n):
+    return isinstance(n, ast.Constant) and isinstance(n.value, int) \
+        and not isinstance(n.value, bool)
+
+
 def _m(p, s, b):
     if isinstance(p, ast.Name) and p.id.startswith(_LIT):
         return isinstance(s, ast.Name) and s.id == p.id[len(_LIT):]
@@ -95,6 +108,37 @@ def _m(p, s, b):
         return True
     if isinstance(p, ast.AST):
         if type(p) is not type(s):
+            return False
+        if isinstance(p, ast.BinOp) and isinstance(p.op, _COMMUTATIVE) \
+                and type(p.op) is type(s.op) and (
+                    _is_int_const(p.left) or _is_int_const(p.right)):
+            # integer arithmetic (one operand of the pattern is an integer
+            # literal): `a + 7` and `7 + a` are the same expression
+            saved = dict(b)
+            if _m(p.left, s.left, b) and _m(p.right, s.right, b):
+                return True
+            b.clear()
+            b.update(saved)
+            if _m(p.left, s.right, b) and _m(p.right, s.left, b):
+                return True
+            b.clear()
+            b.update(saved)
+            return False
+        if isinstance(p, ast.Compare) and len(p.ops) == 1 and len(
+                s.ops) == 1 and type(p.ops[0]) in _FLIP:
+            saved = dict(b)
+            if type(p.ops[0]) is type(s.ops[0]) and _m(
+                    p.left, s.left, b) and _m(
+                        p.comparators[0], s.comparators[0], b):
+                return True
+            b.clear()
+            b.update(saved)
+            if _FLIP[type(p.ops[0])] is type(s.ops[0]) and _m(
+                    p.left, s.comparators[0], b) and _m(
+                        p.comparators[0], s.left, b):
+                return True
+            b.clear()
+            b.update(saved)
             return False
         if isinstance(p, ast.Call):
             return _m(p.func, s.func, b) and _mseq(p.args, s.args, b) \
